@@ -254,7 +254,8 @@ class ServerRun:
                 elif observed.endswith('status 0') and fs in self.dirs:
                     self.dirs.remove(fs)
         rec = dict(v=v, key=key, pkt=pkt, files=files, dirs=dirs, fresh=fresh,
-                   app=L.app_token(key, v, body, script), observed=observed, note=note, calls=list(stub.calls))
+                   app=L.app_token(key, v, body, script), observed=observed, note=note, calls=list(stub.calls),
+                   reply_raw=rep)
         self.records.append(rec)
         return rec
 
@@ -820,6 +821,37 @@ def add_failure(res: OracleResult, seen: set, sig: str, what: str, replay: Dict[
     res.failures.append(Failure(signature=sig, what=what, replay=replay))
 
 
+def reply_body_wellformed(rtype: int, v: int, raw: Optional[bytes]) -> bool:
+    """the reply's body has the shape its type promises (a status body sent under another type does not)"""
+    if raw is None or len(raw) < 5:
+        return True             # nothing recorded: not judged here
+    body = raw[5:]
+    from asyncssh.packet import SSHPacket
+    try:
+        if rtype == 102:
+            return len(body) >= 4 and 4 + int.from_bytes(body[:4], 'big') == len(body)
+        if rtype == 103:
+            n = int.from_bytes(body[:4], 'big')
+            return len(body) >= 4 and (4 + n == len(body) or (v >= 6 and 4 + n + 1 == len(body)))
+        if rtype == 104:
+            pk = SSHPacket(body)
+            count = pk.get_uint32()
+            for _ in range(count):
+                S.SFTPName.decode(pk, v)
+            if v >= 6 and pk:
+                pk.get_boolean()
+            pk.check_end()
+            return True
+        if rtype == 105:
+            pk = SSHPacket(body)
+            S.SFTPAttrs.decode(pk, v)
+            pk.check_end()
+            return True
+    except Exception:
+        return False
+    return True
+
+
 def judge_server_records(records: List[Dict[str, Any]], res: OracleResult, hist: Hist, seen: set) -> None:
     """exactly one reply per request carrying an id, with that id, of a protocol-legal type; a truncated body or
     an unsupported type gives an error status and the session continues"""
@@ -853,6 +885,11 @@ def judge_server_records(records: List[Dict[str, Any]], res: OracleResult, hist:
                         f'v{v}: request {kname} answered with type {rtype}, legal are {legal}', rep)
             continue
         hist.hit('oracle-server:' + note)
+        if not reply_body_wellformed(rtype, v, rec.get('reply_raw')):
+            add_failure(res, seen, f'server-reply-body-malformed:{kname}:{rtype}',
+                        f'v{v}: request {kname} ({note}) answered with a type-{rtype} packet whose body is not a '
+                        f'well-formed body of that type: {obs[:120]}', rep)
+            continue
         code = int(ws[4]) if ws[3] == 'status' else None
         if note in ('unsupported-type', 'unsupported-ext'):
             if code != L.FX_OP_UNSUPPORTED:
